@@ -624,7 +624,13 @@ def gen_case_i(seed, tier, index):
     cfg = stream(seed, "cfg")
     wl = stream(seed, "workload")
     fl = stream(seed, "faults")
-    kind = ["hashseed", "restart", "restart", "restart", "plan", "restart", "hashseed", "restart"][index % 8]
+    kind = ["hashseed", "restart", "restart", "prog_restart", "plan", "restart", "hashseed", "restart"][index % 8]
+    if kind == "prog_restart":
+        # an arbitrary generated program (manual-mode clocks/resets): run, Simulator.reset(), run again
+        from props import c03
+        c = c03.gen_case(seed, tier)
+        c["kind"] = "prog_restart"
+        return c
     if kind == "hashseed":
         n = 8 if tier == "quick" else 24
         hs = fl.sample(range(1, 100000), 3)
@@ -651,6 +657,26 @@ def gen_case(seed, tier):
     return gen_case_i(seed, tier, seed % 8)
 
 
+def run_prog_restart(case, res, dig, stats):
+    """Generated program: every signal / FSM state is compared with the reference interpreter in both runs, and the second run
+    (after Simulator.reset()) must produce the identical observation trace."""
+    from dsim import progdrv
+    st = {"steps": 0, "edges": 0, "faults": {}, "probes": {}}
+    pr = progdrv.ProgRun(case, st)
+    pr.execute()
+    first = pr.dig.hexdigest()
+    pr.dig = Digest()
+    pr.execute(rerun=True)
+    stats["faults"]["restart"] += 1
+    stats["steps"] += st["steps"]
+    stats["decisions"] += st.get("decisions", 0)
+    stats["probes"]["prog_restart"] = stats["probes"].get("prog_restart", 0) + 1
+    if pr.dig.hexdigest() != first:
+        raise Violation("trace_differs_after_reset", -1, {"kind": "generated program"})
+    dig.add(first)
+    return True
+
+
 def run_case(case):
     res = Result()
     dig = Digest()
@@ -660,7 +686,7 @@ def run_case(case):
     nontrivial = [False]
 
     def go():
-        fn = {"hashseed": run_hashseed, "restart": run_restart, "plan": run_plan}[case["kind"]]
+        fn = {"hashseed": run_hashseed, "restart": run_restart, "plan": run_plan, "prog_restart": run_prog_restart}[case["kind"]]
         nontrivial[0] = bool(fn(case, res, dig, stats))
 
     run_guarded(res, go)
@@ -676,6 +702,10 @@ def signature(case, violation):
 
 
 def simplify(case):
+    if case["kind"] == "prog_restart":
+        from dsim import progdrv
+        yield from progdrv.simplify_prog(case)
+        return
     if case["kind"] == "restart":
         if case["bg"]["enabled"]:
             yield dict(case, bg=dict(case["bg"], enabled=False))
